@@ -328,6 +328,11 @@ def load_model(model_folder: str, model_name: str, compiler_options: Dict[str, s
                 raise InvalidCacheError("Cache generated for incompatible CasADi version")
             else:
                 raise
+        except (pickle.UnpicklingError, EOFError) as e:
+            # The cache file is empty, truncated or still being written
+            # (save_model does not write it atomically): pickle reports
+            # every strict prefix of a pickle as one of these two.
+            raise InvalidCacheError("Cache file is incomplete") from e
 
         if db["version"] != __version__:
             raise InvalidCacheError("Cache generated for a different version of pymoca")
